@@ -13,6 +13,7 @@ import (
 	"os"
 	"sort"
 	"strings"
+	"sync"
 	"time"
 
 	"github.com/basekick-labs/arc/internal/config"
@@ -59,12 +60,12 @@ func mk(times []int64, extra map[string][]interface{}) batch {
 }
 
 type spec struct {
-	name      string
-	writers   [][]batch // per writer thread, its batches in order
-	bufSize   int
-	workers   int
-	aged      bool // an extra thread runs the age-based flush once
-	noFlush   bool // skip the explicit FlushAll (Close alone must flush)
+	name    string
+	writers [][]batch // per writer thread, its batches in order
+	bufSize int
+	workers int
+	aged    bool // an extra thread runs the age-based flush once
+	noFlush bool // skip the explicit FlushAll (Close alone must flush)
 }
 
 var base = int64(1_700_000_000) * 1_000_000 // 2023-11-14T22:13:20Z
@@ -100,6 +101,7 @@ func scenarios() []sched.Scenario {
 			vclock.Install(time.Unix(1_700_000_500, 0))
 			var accepted []hx.Row
 			var werrs []string
+			var hmu sync.Mutex // harness bookkeeping only (real lock, no scheduling point): needed by the free-running -race pass
 			body := func() {
 				cfg := &config.IngestConfig{MaxBufferSize: sp.bufSize, MaxBufferAgeMS: 3600_000, Compression: "snappy", FlushWorkers: sp.workers,
 					FlushQueueSize: 16, ShardCount: 1, FlushTimeoutSeconds: 3600, WriteStatistics: true}
@@ -111,11 +113,14 @@ func scenarios() []sched.Scenario {
 					vsched.Go(fmt.Sprintf("writer%d", wi), func() {
 						defer wg.Done()
 						for _, b := range bs {
-							if err := buf.WriteColumnarDirect(context.Background(), "db", "m", b.cols); err != nil {
+							err := buf.WriteColumnarDirect(context.Background(), "db", "m", b.cols)
+							hmu.Lock()
+							if err != nil {
 								werrs = append(werrs, err.Error())
 							} else {
 								accepted = append(accepted, b.rows()...)
 							}
+							hmu.Unlock()
 						}
 					})
 				}
